@@ -119,7 +119,9 @@ fn int_elements(t: &TData) -> Option<Vec<i128>> {
         "i32" => Some(t.i32s().into_iter().map(|x| x as i128).collect()),
         "u8" => Some(t.data.iter().map(|x| *x as i128).collect()),
         "i8" => Some(t.data.iter().map(|x| *x as i8 as i128).collect()),
-        "f32" => t.f32s().into_iter().map(|x| if x.is_finite() && x.fract() == 0.0 { Some(x as i128) } else { None }).collect(),
+        // A claim is an integer: an element that is not integral (or not finite) can
+        // never equal it. Such elements are mapped to a value no i32 expression takes.
+        "f32" => Some(t.f32s().into_iter().map(|x| if x.is_finite() && x.fract() == 0.0 && x.abs() < 1e18 { x as i128 } else { i128::MAX }).collect()),
         _ => None,
     }
 }
@@ -272,6 +274,7 @@ pub fn run_c10(args: &Args) {
                                         let kind = match (d, eval(d, &env)) {
                                             (SymExpr::Value(_), _) => "fixed_dim",
                                             (_, Ev::Val(v)) if v < 0 && *size == 0 => "symbolic_dim_negative_for_empty",
+                                            (_, Ev::Either(a, b)) if a < 0 && b < 0 && *size == 0 => "symbolic_dim_negative_for_empty",
                                             _ => "symbolic_dim",
                                         };
                                         problem = Some((kind.into(), format!("claimed dim {} = {} (= {:?} under {:?}) but the value has shape {:?}", i, d, eval(d, &env), env, t.shape)));
